@@ -1,6 +1,7 @@
 import os, subprocess, time, json
 
-V = '/verif'
+# the framework's own directory (a snapshot run works on its snapshot, not on /verif)
+V = os.path.dirname(os.path.dirname(os.path.abspath(__file__)))
 REPO = '/repo'
 BUILD = os.path.join(V, 'build')
 LEAN = os.path.join(V, 'lean')
